@@ -280,12 +280,16 @@ pub fn generate_c18(rng: &mut Rng) -> Scenario {
     let mut metas = Vec::new();
     let mut paths: Vec<&str> = GEN_PATHS.to_vec();
     rng.shuffle(&mut paths);
+    let mut written_paths: Vec<String> = Vec::new();
     for i in 0..n_gens {
         // sometimes the same generator is listed twice
         let path = if i > 0 && rng.chance(1, 8) { metas.last().map(|m: &GenMeta| m.path.clone()).unwrap() } else { paths[i].to_owned() };
         let args = random_args(rng);
         let reply = reply_from_pool(rng, 3, hint < 20_000);
         let b: Behaviour = if fault_free || rng.chance(2, 5) { gens::ok(rng, &reply, small_caps) } else { gens::failing(rng, &reply, hint, small_caps) };
+        if b.kind == "ok" {
+            written_paths.extend(reply.files.iter().map(|f| String::from_utf8_lossy(&f.path).into_owned()));
+        }
         let mut g = b.gen.clone();
         gens::normalise(&mut g, hint);
         if fault_free {
@@ -312,7 +316,12 @@ pub fn generate_c18(rng: &mut Rng) -> Scenario {
         sim.buggify = Buggify::default();
     } else if rng.chance(1, 4) {
         // libc faults on generated files
-        let targets: Vec<String> = POOL.iter().map(|p| landing_path(&output_dir, p)).collect();
+        // place the fault inside an operation that will happen: prefer files a well-behaved generator writes
+        let targets: Vec<String> = if written_paths.is_empty() || rng.chance(1, 4) {
+            POOL.iter().map(|p| landing_path(&output_dir, p)).collect()
+        } else {
+            written_paths.iter().map(|p| landing_path(&output_dir, p)).collect()
+        };
         for _ in 0..1 + rng.usize_below(2) {
             let path = rng.pick(&targets).clone();
             let fault = match rng.below(6) {
